@@ -9,8 +9,8 @@ props = [json.loads(l) for l in open(os.path.join(VERIF, "properties.jsonl"))]
 checks, na = [], []
 for p in props:
     pid = p["id"]
-    if pid in registry.PROPS and pid in mm.CHECKS:
-        meta = mm.CHECKS[pid]
+    if pid in registry.PROPS and registry.PROPS[pid].get("manifest"):
+        meta = registry.PROPS[pid]["manifest"]
         checks.append({
             "property_id": pid,
             "quick_cmd": "./check %s --tier quick" % pid,
